@@ -1775,6 +1775,9 @@ pub unsafe fn abi_entry_light<T: AbiExportable + ?Sized>(flag: AbiProtocol) {
                     let temp;
                     if let Some(err) = err.downcast_ref::<&str>() {
                         msg = err;
+                    } else if let Some(err) = err.downcast_ref::<String>() {
+                        // panic!("{}", x) carries a String payload
+                        msg = err.as_str();
                     } else {
                         temp = format!("{:?}", err);
                         msg = &temp;
@@ -1878,6 +1881,9 @@ pub unsafe fn abi_entry<T: AbiExportableImplementation>(flag: AbiProtocol) {
                     let temp;
                     if let Some(err) = err.downcast_ref::<&str>() {
                         msg = err;
+                    } else if let Some(err) = err.downcast_ref::<String>() {
+                        // panic!("{}", x) carries a String payload
+                        msg = err.as_str();
                     } else {
                         temp = format!("{:?}", err);
                         msg = &temp;
